@@ -429,7 +429,9 @@ class TRSpec(object):
                     outs.append((s2, r)); continue
                 s3 = s2.copy()
                 outs.append((s2, ('val', Val.s(FA(alias, r[1])))))
-                outs.append((s3, ('exc', s3.sym_exc(ordinary=True, label='exc_format'))))     # alias.format(**junk) raises an ordinary exception
+                e3 = s3.sym_exc(ordinary=True, label='exc_format')                  # alias.format(**junk) raises an ordinary exception
+                s3.trace.append(dict(kind='Lib', name='alias.format', outcome=('raise', e3)))
+                outs.append((s3, ('exc', e3)))
         return outs
 
     def c_pickle_copy(self, ex, st, args, kw, node, star, dstar):
